@@ -408,11 +408,14 @@ def iterjoin(left, right, lkey, rkey, leftouter=False, rightouter=False,
     # loop until *either* of the iterators is exhausted
     # initialise here to handle empty tables
     lkval, rkval = Comparable(None), Comparable(None)
+    lhanging = False
     try:
 
         # pick off initial row groups
         lkval, lrowgrp = next(lgit)
+        lhanging = True  # in case the right table has no rows
         rkval, rrowgrp = next(rgit)
+        lhanging = False
 
         while True:
             if lkval < rkval:
@@ -439,7 +442,7 @@ def iterjoin(left, right, lkey, rkey, leftouter=False, rightouter=False,
 
     # make sure any left rows remaining are yielded
     if leftouter:
-        if lkval > rkval:
+        if lhanging or lkval > rkval:
             # yield anything that got left hanging
             for row in joinrows(lrowgrp, None):
                 yield tuple(row)
@@ -623,11 +626,14 @@ def iterantijoin(left, right, lkey, rkey):
 
     # loop until *either* of the iterators is exhausted
     lkval, rkval = Comparable(None), Comparable(None)
+    lhanging = False
     try:
 
         # pick off initial row groups
         lkval, lrowgrp = next(lgit)
+        lhanging = True  # in case the right table has no rows
         rkval, _ = next(rgit)
+        lhanging = False
 
         while True:
             if lkval < rkval:
@@ -647,7 +653,7 @@ def iterantijoin(left, right, lkey, rkey):
         pass
 
     # any left over?
-    if lkval > rkval:
+    if lhanging or lkval > rkval:
         # yield anything that got left hanging
         for row in lrowgrp:
             yield tuple(row)
@@ -788,11 +794,14 @@ def iterlookupjoin(left, right, lkey, rkey, missing=None, lprefix=None,
     # loop until *either* of the iterators is exhausted
     # initialise here to handle empty tables
     lkval, rkval = Comparable(None), Comparable(None)
+    lhanging = False
     try:
 
         # pick off initial row groups
         lkval, lrowgrp = next(lgit)
+        lhanging = True  # in case the right table has no rows
         rkval, rrowgrp = next(rgit)
+        lhanging = False
 
         while True:
             if lkval < rkval:
@@ -814,7 +823,7 @@ def iterlookupjoin(left, right, lkey, rkey, missing=None, lprefix=None,
         pass
 
     # make sure any left rows remaining are yielded
-    if lkval > rkval:
+    if lhanging or lkval > rkval:
         # yield anything that got left hanging
         for row in joinrows(lrowgrp, None):
             yield tuple(row)
